@@ -35,6 +35,10 @@ def run(run):
         destructor(run, f, det)
         panic_condition(run, f, det)
         edge_outlives_request(run, f)
+        # residue through poisoning: WaitForGuard::drop skips the removal when the lock is poisoned,
+        # so "no residue" needs the lock to be unpoisonable: no panic while the guard is live
+        from rules import c12
+        c12.lock_discipline(run, f)
 
 
 def edge_iff_guard(run, f, det):
@@ -122,6 +126,32 @@ def destructor(run, f, det):
         key = strip_refs(tr.norm(tr.call_args(rem[0].idx)[1]))
         okr = key == ("field", 0, ("param", 1)) or key == ("field", 0, ("deref", ("param", 1)))
     run.require(okr, "O15.3", "drop-removes-own-key", "WaitForGuard::drop does not call remove(&self.0) exactly once", "remove(&self.0)", loc=loc_of(body, rem[0]) if rem else None)
+    # the removal may be skipped only when the lock could not be taken (poisoned): every other path
+    # from entry to return passes the remove call
+    if rem:
+        sp = sendpaths.get(f)
+        err_arms = set()
+        for blk in body.blocks:
+            if blk.term["k"] == "switch" and blk.idx in cfg.live:
+                for kind, subj, arm, sbb in sp.guards(body, blk.idx):
+                    pass
+        for blk in body.blocks:
+            if blk.term["k"] != "switch" or blk.idx not in cfg.live:
+                continue
+            op = blk.term["discr"]
+            pl = op.get("copy") or op.get("move")
+            if pl is None or pl["p"]:
+                continue
+            ds = tr.defs.get(pl["l"], [])
+            if len(ds) == 1 and ds[0][0] == "assign" and "discr" in ds[0][3]:
+                subj = strip_wrappers(tr.norm(tr.place(ds[0][3]["discr"])))
+                if subj[0] == "call" and fn_of(body.blocks[subj[1]]).get("name") == "lock":
+                    arms = {int(v): t for v, t in blk.term["arms"]}
+                    err_arms.add(arms.get(1, blk.term["otherwise"]))
+        rets = set(cfg.exits(("return",)))
+        bypass = cfg.reachable_from(0, avoid={rem[0].idx} | err_arms) & rets
+        run.require(not bypass, "O15.3", "drop-always-removes", "WaitForGuard::drop can return without removing its edge although the graph lock was available (the edge would stay in the graph forever)",
+                    "every path of drop either removes self.0 or found the lock poisoned", loc=loc_of(body, rem[0]))
     locks = [k for k in live_calls(body) if fn_of(k).get("name") == "lock" and "Mutex" in (fn_of(k).get("def") or "")]
     okl = len(locks) == 1
     if okl:
